@@ -40,6 +40,19 @@ def gen_program(rng, maxlen=40, maxmode=8):
                     args.append("phi=q%d / 2" % abs(pool[rng.randrange(nm + 2)]))
                 else:
                     args.append("phi=%s" % rng.choice(["0.1", "[1, 2]"]))
+            elif rng.random() < 0.25:
+                # several keyword arguments in any order: plain values, list values (numbers, strings, booleans) and values that read
+                # measured registers - before, between and after one another
+                kws = []
+                for nmk in rng.sample(["select", "dark_counts", "r", "theta", "cutoff"], rng.randint(2, 4)):
+                    t = rng.random()
+                    if t < 0.4:
+                        kws.append("%s=%s" % (nmk, rng.choice(["q%d", "2 * q%d - 1", "q%d / 4"]) % abs(pool[rng.randrange(nm + 2)])))
+                    elif t < 0.75:
+                        kws.append("%s=%s" % (nmk, rng.choice(["[1, 2]", "[0.5]", '["a", True]', "[]", "[3, 4, 5]"])))
+                    else:
+                        kws.append("%s=%s" % (nmk, rng.choice(["0.1", "7", '"s"', "True"])))
+                args += kws
             argtext = "(" + ", ".join(args) + ")"
         name = rng.choice(["Sgate", "BSgate", "MeasureX", "Dgate", "Vac", "Rgate"])
         mt = ", ".join(map(str, modes))
